@@ -260,6 +260,10 @@ func (h *H) opDec(u *universe.UStruct, input []byte, dest reflect.Value, walk bo
 	}
 	buf := append(make([]byte, 0, len(input)+3), input...) // private copy, spare capacity on purpose
 	orig := append([]byte{}, input...)
+	// a shallow copy of the destination shares every pointee, backing array and map with it: the
+	// decoder may write the destination struct itself and memory it allocates, nothing else
+	shadow := reflect.New(u.Type).Elem()
+	shadow.Set(dest.Elem())
 	line := fmt.Sprintf("dec %d %s %s", u.Sid, hexOrDash(input), before)
 	h.mark(line)
 	var err error
@@ -274,6 +278,10 @@ func (h *H) opDec(u *universe.UStruct, input []byte, dest reflect.Value, walk bo
 	h.stats["dec_"+strings.SplitN(res, ":", 2)[0]]++
 	if string(buf) != string(orig) {
 		h.oracle("C16", fmt.Sprintf("DecodeObject modified the input buffer sid=%d in=%s", u.Sid, hexOrDash(orig)))
+	}
+	if now := showValue(shadow); now != before {
+		h.oracle("C06", fmt.Sprintf("DecodeObject wrote through memory reachable from the prior destination sid=%d in=%s dest=%s shallow copy of the destination afterwards=%s",
+			u.Sid, hexOrDash(orig), clip(before), clip(now)))
 	}
 	if res != "ok" {
 		h.emit(line + " -> " + res)
